@@ -20,7 +20,8 @@ from asphalt.core import (  # noqa: E402
 
 ACTIONS = ["'cancel'", "None (task ends by itself)", "sync callable", "async callable", "sync callable that raises",
            "async callable that raises when awaited", "callable object (class with __call__)",
-           "unhashable callable object (a dataclass with __call__: __eq__ without __hash__)"]
+           "unhashable callable object (a dataclass with __call__: __eq__ without __hash__)",
+           "falsy callable object (__call__ plus __bool__ returning False)"]
 LATER_ACTIONS = ["'cancel'", "sync callable"]
 
 
@@ -30,7 +31,7 @@ def cfg(tier):
 
 def params(tier):
     D, L = cfg(tier)
-    ps = [P("n", 0, 2), P("nested", 0, 1), P("act", 0, 7), P("selfend", 0, 1), P("via", 0, 2), P("cleanup", 0, 1), P("k0", 0, 2), P("k1", 0, 2), P("k2", 0, 2), P("act2", 0, 1)]
+    ps = [P("n", 0, 2), P("nested", 0, 1), P("act", 0, 8), P("selfend", 0, 1), P("via", 0, 2), P("cleanup", 0, 1), P("k0", 0, 2), P("k1", 0, 2), P("k2", 0, 2), P("act2", 0, 1)]
     for j in range(D):
         ps += [P(f"gap{j}", 0, L), P(f"arm{j}", 0, 3)]
     return ps
@@ -47,7 +48,7 @@ def fn(a, tier):
     # 0 resource with teardown callback, 1 service task, 2 resource whose teardown callback starts a service task DURING teardown
     kinds = [pick(a[f"k{i}"], 3) for i in range(n)]
     first_task = next((i for i, k in enumerate(kinds) if k == 1), None)
-    act = pick(a["act"], 8) if first_task is not None else 0
+    act = pick(a["act"], 9) if first_task is not None else 0
     # the first task has already ended by itself (with its context) when the owner is torn down: its teardown action is still due exactly once
     selfend = pick(a["selfend"], 2) if first_task is not None else 0
     cleanup = 2 * pick(a["cleanup"], 2) if first_task is not None else 0
@@ -134,7 +135,19 @@ def fn(a, tier):
             def __call__(self):
                 sync_stop()
 
-        td = ["cancel", None, sync_stop, async_stop, sync_raise, async_raise, Stopper(), Shutdown("owner left")][action]
+        class StopRequest:
+            """Truthy only once it has been called - a falsy callable until then."""
+
+            requested = False
+
+            def __call__(self):
+                self.requested = True
+                sync_stop()
+
+            def __bool__(self):
+                return self.requested
+
+        td = ["cancel", None, sync_stop, async_stop, sync_raise, async_raise, Stopper(), Shutdown("owner left"), StopRequest()][action]
         return task, td
 
     async def block():
